@@ -454,7 +454,8 @@ def _compare(ctx, e, loaded, route, sig_extra=''):
         if e['kind'] in ('rdms', 'data') and not any(np.isnan(np.asarray(a, dtype=float)).any() for a in arrs):
             if rec_any(src) == e['twin'] or not diff_rec(rec_any(src), e['twin']):
                 eq = (loaded == src)
-                if isinstance(eq, (bool, np.bool_)) and not eq:
+                self_eq = (src == src)          # a missing (NaN) label makes the library's == false even for the object itself
+                if isinstance(eq, (bool, np.bool_)) and not eq and isinstance(self_eq, (bool, np.bool_)) and self_eq:
                     ctx.violation('fs_model.eq', f'load:{e["kind"]}:{e["ft"]}:library-eq',
                                   f'loaded object is field-wise equal to the saved one but the library\'s == returns False')
                     return False
